@@ -186,9 +186,9 @@ func writeEvidence(prop string, tier tierCfg, seed int64, ld *loaded, hs []*Harn
 			"bounds are those listed per harness; inputs beyond them are outside the claim",
 		}, sortedKeys(assumptions)...),
 	}
-	os.MkdirAll(filepath.Join(verifDir, "evidence"), 0o755)
+	os.MkdirAll(evidenceDir, 0o755)
 	b, _ := json.MarshalIndent(ev, "", " ")
-	os.WriteFile(filepath.Join(verifDir, "evidence", prop+".json"), b, 0o644)
+	os.WriteFile(filepath.Join(evidenceDir, prop+".json"), b, 0o644)
 }
 
 func sortedKeys(m map[string]bool) []string {
